@@ -16,6 +16,7 @@ CONSTANTS
   MaxSt = 3
   MaxLd = 0
   MaxLen = 3
+  Template <- NoTemplate
   Q = {}
   Clauses <- AllClauses
   Probe = TRUE
